@@ -9,7 +9,7 @@ from typing import *
 from .. import datatypes
 from .. import llsd
 from .. import serialization as se
-from ..helpers import HippoPrettyPrinter
+from ..helpers import HippoPrettyPrinter, float_repr
 from ..network.transport import Direction
 from .msgtypes import PacketFlags, MsgBlockType
 from .template import MessageTemplate
@@ -214,6 +214,8 @@ class HumanMessageSerializer:
             var_data = str(var_val)
         elif isinstance(var_val, (str, bytes)) and not serializer:
             var_data = cls._multi_line_pformat(var_val)
+        elif isinstance(var_val, float):
+            var_data = float_repr(var_val)
         else:
             var_data = repr(var_val)
         if serializer and beautify and not isinstance(var_val, VerbatimHumanVal):
